@@ -12,6 +12,7 @@ import (
 	"encoding/json"
 	"fmt"
 	"io"
+	"net"
 	"regexp"
 	"sort"
 	"strings"
@@ -26,6 +27,7 @@ import (
 	"github.com/hashicorp/consul/agent/consul/fsm"
 	"github.com/hashicorp/consul/agent/consul/state"
 	"github.com/hashicorp/consul/agent/consul/stream"
+	"github.com/hashicorp/consul/agent/netutil"
 	"github.com/hashicorp/consul/agent/structs"
 	"github.com/hashicorp/consul/api"
 	raftstorage "github.com/hashicorp/consul/internal/storage/raft"
@@ -33,6 +35,12 @@ import (
 )
 
 type M = map[string]any
+
+// Virtual-IP allocation asks the local agent over HTTP whether it runs dual-stack unless a bind
+// address is cached; a harness has no agent, so the answer is pinned (IPv4) for every replica alike.
+func init() {
+	netutil.SetAgentBindAddr(&net.IPAddr{IP: net.ParseIP("127.0.0.1")})
+}
 
 // ---------------------------------------------------------------- name <-> uuid
 
